@@ -418,7 +418,7 @@ for (h, n, st) in ((3, 2, 0), (4, 2, 1), (4, 2, 0)):
        bound="code-point haystack window of %d chars%s from the model domain, ASCII needle %d, DEFAULT config, 256-byte slab" % (h - st, " preceded by one char" if st else "", n), cost=6, timeout=1500, stubs=CHAR_STUBS, core=(h == 3))
 for rep in (1, 2):
     for (h, n) in ((4, 2), (4, 1), (5, 3)):
-        UC("c01-uni-prefilter-r%d-h%d-n%d" % (rep, h, n), "uni", "uni_prefilter::<%d,%d,%d>()" % (rep, h, n), {"C01": "quick" if h == 4 else "thorough"}, "bounded", ["Matcher::prefilter_non_ascii"],
+        UC("c01-uni-prefilter-r%d-h%d-n%d" % (rep, h, n), "uni", "uni_prefilter::<%d,%d,%d>()" % (rep, h, n), {"C01": "quick"}, "bounded", ["Matcher::prefilter_non_ascii"],
            "prefilter_non_ascii (%s): never rejects a haystack containing the needle as a normalised subsequence; start = first occurrence of needle[0], end-1 = last occurrence of the last needle char after start" % REPNAME[rep],
            unwind=max(h + 3, 7), bound="%s, haystack %d, needle %d, model-domain chars, only_greedy symbolic" % (REPNAME[rep], h, n), cost=4, stubs=CHAR_STUBS)
 for uni in (False, True):
